@@ -59,3 +59,45 @@ Definition ps_eqb (P Q : fps) : bool :=
   ops_eqb (pops P) (pops Q) &&
   cclose (0x1.19799812dea11p-40 * fmax 1 (fmax (abs (fst (pcoef P))) (abs (snd (pcoef P)))))%float (pcoef P) (pcoef Q).
 Definition sum_eqb (H G : list fps) : bool := all2 ps_eqb H G.
+
+(* ---------------- exponentials (C09) ---------------- *)
+From QI Require Import Proofs.C09 Run.Taylor.
+
+(* Spec of exp(alpha P) psi from given cosh/sinh/exp values *)
+Definition exp_spec (P : fps) (ea ch sh : cf) (n : N) (v : list cf) : list cf :=
+  match pops P with
+  | [] => map (fun k => cmul fops (get (c0 fops) v k) ea) (Nrange (2^n))
+  | _ => map (fun k => cadd fops (cmul fops (get (c0 fops) v k) ch) (cmul fops (apply_ops_f fops (pops P) (get (c0 fops) v) k) sh)) (Nrange (2^n))
+  end.
+
+(* bits: 1 class = model; 2 model close; 4 model equal; 8 result close to the Spec built from the TAYLOR-SERIES values
+   (libm-free reference); 16 validity (factors in range, and for neg_i_dt: Err iff im(coefficient) <> 0) agrees with Ok/Err;
+   32 the harness-supplied libm values agree with the Taylor series (1e-12 relative) *)
+Definition check_exp_case (par negidt : bool) (P : fps) (alpha ea ch sh : cf) (nterms : nat) (n : N) (v : list cf) (r : pimpl) : N :=
+  let m := if negidt then ps_apply_exp_neg_i_dt_with fops par P ea ch sh (mkState n v)
+           else ps_apply_exp_with fops par P ea ch sh (mkState n v) in
+  let valid := keys_okb n (pops P) && (if negidt then PrimFloat.eqb (snd (pcoef P)) 0 else true) in
+  let ser := match cfx_of_float alpha with
+             | Some a => let '(c, s) := cosh_sinh_series nterms a in Some (c, s, fxcadd c s)
+             | None => None end in
+  let oracle_ok := match ser, cfx_of_float ch, cfx_of_float sh, cfx_of_float ea with
+                   | Some (c, s, e), Some ch', Some sh', Some ea' => fx_close ch' c && fx_close sh' s && fx_close ea' e
+                   | _, _, _, _ => false end in
+  match r with
+  | PIState w =>
+      let tol := (4 * amp_tol (v ++ w))%float in
+      let spec := match ser with
+                  | Some (c, s, e) => if keys_okb n (pops P) then exp_spec P (cfloat_of_fx e) (cfloat_of_fx c) (cfloat_of_fx s) n v else []
+                  | None => [] end in
+      b2n (class_bits m r)
+      + 2 * b2n (match m with Ok st => vclose tol (vec st) w | _ => false end)
+      + 4 * b2n (match m with Ok st => vexact (vec st) w | _ => false end)
+      + 8 * b2n (vclose tol spec w) + 16 * b2n valid + 32 * b2n oracle_ok
+  | PIErr => b2n (class_bits m r) + 2 + 4 + 8 + 16 * b2n (negb valid) + 32 * b2n oracle_ok
+  | _ => b2n (class_bits m r) + 2 + 4 + 8 + 32 * b2n oracle_ok
+  end.
+
+(* group law and exp(0) = I on the implementation's outputs: bits 1: E_a(E_b psi) ~ E_{a+b} psi; 2: E_0 psi ~ psi *)
+Definition check_exp_group (v eab esum e0 : list cf) : N :=
+  let tol := (16 * amp_tol (v ++ eab ++ esum))%float in
+  b2n (vclose tol eab esum) + 2 * b2n (vclose (amp_tol v) e0 v).
